@@ -536,12 +536,12 @@ def fromspec_concretise(case: dict, sd: int):
         py_items.append(py)
         yml_items.append(y)
         rows.append({"label": (prefix + "." if prefix else "") + cc["short"], "value": cc["val"], "vary": ex["vary"],
-                     "non_negative": ex["non_negative"], "minimum": -2.5 if ex["bounds"] else -math.inf,
-                     "maximum": 1e9 if ex["bounds"] else math.inf, "expression": expr, "standard_error": float("nan")})
+                     "non_negative": ex["non_negative"], "minimum": -2.5 if ex["bounds"] else (-7.0 if ex.get("dbounds") else -math.inf),
+                     "maximum": 1e9 if ex["bounds"] else (50.0 if ex.get("dbounds") else math.inf), "expression": expr, "standard_error": float("nan")})
     d = case["dflt"]
     if d != "none":
-        blk_py = {"vary": False} if d == "vary_false" else {"non-negative": True}
-        blk_y = "{vary: false}" if d == "vary_false" else "{non-negative: true}"
+        blk_py = {"vary": False} if d == "vary_false" else ({"non-negative": True} if d == "nonneg" else {"min": -7.0, "max": 50.0})
+        blk_y = "{vary: false}" if d == "vary_false" else ("{non-negative: true}" if d == "nonneg" else "{min: -7.0, max: 50.0}")
         if case["dfltpos"] == "first":
             py_items, yml_items = [blk_py] + py_items, [blk_y] + yml_items
         else:
@@ -823,13 +823,13 @@ def run(tier: str, replay=None) -> int:
 
     if tier == "quick":
         consts = (LABELS_ALL, ["zero", "one", "frac", "frac17", "huge", "negtiny", "neginf"], STDERR_ALL, TABLE_FORMATS, 3, 2, 2)
-        fs_consts = (["list", "dict1", "dict2", "dict3"], ["bare", "v", "lv", "vl"], ["float", "sci"], ["none", "vary_false", "vary_true", "expr"],
-                     ["none", "vary_false", "nonneg"], 2)
+        fs_consts = (["list", "dict1", "dict2", "dict3"], ["bare", "v", "lv", "vl"], ["float", "sci"], ["none", "vary_false", "vary_true", "expr", "bounds"],
+                     ["none", "vary_false", "nonneg", "bounds"], 2)
         sheet_sample = 260
     else:
         consts = (LABELS_ALL, VALUES_ALL, STDERR_ALL, TABLE_FORMATS, 3, 3, 2)
         fs_consts = (["list", "dict1", "dict2", "dict3"], ["bare", "v", "lv", "vl"], ["float", "int", "sci"],
-                     ["none", "vary_false", "vary_true", "nonneg", "bounds", "expr"], ["none", "vary_false", "nonneg"], 2)
+                     ["none", "vary_false", "vary_true", "nonneg", "bounds", "expr"], ["none", "vary_false", "nonneg", "bounds"], 2)
         sheet_sample = None
 
     # ---- TLC: model-level check, then emission of the tables
